@@ -237,6 +237,11 @@ func peerReader(l *link, s *sink) {
 		if n > 0 {
 			s.add(buf[:n])
 		}
+		if err != nil && n > 0 {
+			// an ssh channel reports a failed window-adjust WRITE (the client has gone) from Read while
+			// received data is still buffered: the stream ends when a read delivers nothing
+			continue
+		}
 		if err != nil {
 			s.mu.Lock()
 			s.err = err
